@@ -67,7 +67,8 @@ def _parse_crsd_header_field(line):
 
     if line.startswith(CRSD_SECTION_TERMINATOR):
         return None
-    parts = line.split(b' := ')
+    # NB: only the first separator splits the line, the value itself may contain ' := '
+    parts = line.split(b' := ', 1)
     if len(parts) != 2:
         raise ValueError('Cannot extract CRSD header value from line {}'.format(line))
     fld = parts[0].strip().decode('utf-8')
